@@ -273,3 +273,8 @@ func VerifClassifyLine(line []byte) any {
 	}
 	return VerifCanonEvent(e)
 }
+
+func VerifValidateResultPath(repoDir, rel string) (string, error) { return validateResultPath(repoDir, rel) }
+func VerifResolveErgoDir(start string) (string, error)            { return resolveErgoDir(start) }
+func VerifGetEventsPath(dir string) string                        { return getEventsPath(dir) }
+func VerifDeriveFileURL(rel, repoDir string) string               { return deriveFileURL(rel, repoDir) }
